@@ -144,9 +144,14 @@ fn suite_srv(a: &Args) {
   std::fs::write(&a.out, out).expect("write transcript");
 }
 
+/// panics of the code under test since start-up (the real server's panic hook ends the process on any of them)
+pub static PANICS: std::sync::atomic::AtomicU64 = std::sync::atomic::AtomicU64::new(0);
+
 fn main() {
   // panics of the code under test are caught and reported per case; keep their backtraces out of the transcript
-  std::panic::set_hook(Box::new(|_| {}));
+  std::panic::set_hook(Box::new(|_| {
+    PANICS.fetch_add(1, std::sync::atomic::Ordering::SeqCst);
+  }));
   let a = parse_args();
   match a.suite.as_str() {
     "srv" => suite_srv(&a),
